@@ -4,6 +4,7 @@ import (
 	"fmt"
 	"go/token"
 	"strings"
+	"syscall"
 
 	"golang.org/x/tools/go/ssa"
 )
@@ -11,7 +12,7 @@ import (
 func init() {
 	register("C19",
 		"Process schedules cannot be enumerated; the acquire/release discipline is decided: (R19.1) every cobra.Command literal whose PreRunE loads the backend has a RunE that is execenv.CloseBackend(env, …) or a function closing the backend on all its exits, and every direct call of a LoadBackend pre-run is followed by a deferred Close; (R19.2) inside execenv an error return reachable after the backend was loaded closes it; CloseBackend closes on success and on failure of the wrapped function; (R19.3) repoIsAvailable removes a lock file only on the edge where its holder is not running, refuses with the pid otherwise; lock() writes the file only after that check succeeded; RepoCache.Close removes the lock file on its success path; (R19.4) the lock file is created with exclusive-create semantics.",
-		[]string{"process.IsRunning answers truthfully; pid reuse and kill timing are not modelled", "cobra runs RunE only when PreRunE succeeded"},
+		[]string{"os.Process.Signal(0) reports the state of the process truthfully; pid reuse and kill timing are not modelled", "cobra runs RunE only when PreRunE succeeded"},
 		runC19)
 }
 
@@ -36,6 +37,7 @@ func runC19(c *Ctx) {
 	c.Doc("R19.2", "in execenv, an error return reachable after the backend was loaded successfully passes Backend.Close(); CloseBackend calls Close whatever the wrapped function returned")
 	c.Doc("R19.3", "lock removal only on the !IsRunning edge; live holder ⇒ error; lock written only after repoIsAvailable succeeded; Close removes the lock on success")
 	c.Doc("R19.4", "the lock file is opened with O_CREATE|O_EXCL (no truncating Create after a separate existence test)")
+	checkWebUIAndIsRunning(c)
 	isLoad := func(n string) bool {
 		return n == "commands/execenv.LoadBackend" || n == "commands/execenv.LoadBackendEnsureUser"
 	}
@@ -420,4 +422,202 @@ func closesViaCallees(w *World, f *ssa.Function, depth int) (bool, []*ssa.BasicB
 	}
 	bad, p, _ := pathSearch(f, nil, nil, isAnyReturn, stop, false)
 	return !bad, p
+}
+
+// R19.6: a command that opens the cache outside execenv (the web UI) closes it on every exit.
+// R19.7: IsRunning answers "alive" for every outcome of signal 0 except "no such process".
+func checkWebUIAndIsRunning(c *Ctx) {
+	w := c.W
+	c.Doc("R19.6", "in every function of package commands that registers a repository with a MultiRepoCache, every return reachable after the cache was opened successfully passes MultiRepoCache.Close / the handler's Close, or waits on a channel that a goroutine of the function closes only after closing the cache")
+	c.Doc("R19.7", "process.IsRunning returns true when signal 0 was delivered (nil error) and when the error is EPERM (the process exists but belongs to someone else), false only for ESRCH / 'already finished' / unknown: a live holder of another user must not be taken for dead")
+	n := 0
+	for _, fn := range w.ModFns {
+		if isInstance(fn) || !strings.HasPrefix(fnPkgPath(fn), modPath+"/commands") || fn.Parent() != nil || w.isTestHelper(fn) {
+			continue
+		}
+		var reg *Call
+		for _, cl := range Calls(fn) {
+			if strings.HasSuffix(cl.Name, "MultiRepoCache.RegisterDefaultRepository") || strings.HasSuffix(cl.Name, "MultiRepoCache.RegisterRepository") {
+				reg = cl
+			}
+		}
+		if reg == nil {
+			continue
+		}
+		n++
+		c.seeFn(funcName(fn))
+		// the open succeeded: success edge of the call consuming the event stream
+		var opened []*ssa.BasicBlock
+		for _, cl := range Calls(fn) {
+			if cl.Value() == nil || len(errValues(cl.Value())) == 0 {
+				continue
+			}
+			usesEvents := false
+			for _, a := range cl.Args() {
+				for _, o := range origins(a) {
+					if o.Val == reg.Value() {
+						usesEvents = true
+					}
+				}
+			}
+			if usesEvents {
+				opened = append(opened, successBlocks(cl.Value())...)
+			}
+		}
+		key := funcName(fn) + ":cache-closed-on-every-exit"
+		if len(opened) == 0 {
+			c.Undecided("R19.6", key, w.InstrPos(reg.Instr), "the point where the cache is known to be open was not recognised (no call consuming the build events with an error result)")
+			continue
+		}
+		// channels closed by a goroutine of fn after it closed the cache
+		closesCache := func(i ssa.Instruction) bool {
+			ci, ok := i.(ssa.CallInstruction)
+			if !ok {
+				return false
+			}
+			nn, _ := callName(ci.Common())
+			if strings.HasSuffix(nn, "MultiRepoCache.Close") || strings.HasSuffix(nn, "RepoCache.Close") {
+				return true
+			}
+			// an io.Closer / handler whose Close reaches the cache's Close
+			if strings.HasSuffix(nn, ".Close") {
+				for _, callee := range w.SiteCallees(ci) {
+					for r := range w.Reach([]*ssa.Function{callee}, nil) {
+						if fnm := funcName(r); strings.HasSuffix(fnm, "MultiRepoCache.Close") {
+							return true
+						}
+					}
+				}
+			}
+			return false
+		}
+		doneChans := map[ssa.Value]bool{}
+		for _, a := range fn.AnonFuncs {
+			for _, b := range a.Blocks {
+				for _, ins := range b.Instrs {
+					cv, isCall := ins.(*ssa.Call)
+					if !isCall {
+						continue
+					}
+					bi, isB := cv.Common().Value.(*ssa.Builtin)
+					if !isB || bi.Name() != "close" {
+						continue
+					}
+					// a cache close dominates this close(ch)
+					dominated := false
+					for _, b2 := range a.Blocks {
+						for _, i2 := range b2.Instrs {
+							if closesCache(i2) && instrDominates(i2, cv) {
+								dominated = true
+							}
+						}
+					}
+					if !dominated {
+						continue
+					}
+					// the channel: a captured variable of the goroutine → its binding in fn
+					arg := cv.Common().Args[0]
+					if ld, isLd := arg.(*ssa.UnOp); isLd {
+						if fv, isFV := ld.X.(*ssa.FreeVar); isFV {
+							for _, ins2 := range allInstrs(fn) {
+								if mc, isMC := ins2.(*ssa.MakeClosure); isMC && mc.Fn == a {
+									for i, f2 := range a.FreeVars {
+										if f2 == fv && i < len(mc.Bindings) {
+											doneChans[mc.Bindings[i]] = true
+										}
+									}
+								}
+							}
+						}
+					}
+				}
+			}
+		}
+		isCloseOrWait := func(i ssa.Instruction) bool {
+			if closesCache(i) {
+				return true
+			}
+			if u, isU := i.(*ssa.UnOp); isU && u.Op == token.ARROW {
+				if ld, isLd := u.X.(*ssa.UnOp); isLd && doneChans[ld.X] {
+					return true
+				}
+				if doneChans[u.X] {
+					return true
+				}
+			}
+			return false
+		}
+		bad := ""
+		for _, ob := range opened {
+			c.Sites++
+			if found, p, _ := pathSearch(fn, nil, ob, isAnyReturn, isCloseOrWait, false); found {
+				bad = blocksString(w, p)
+			}
+		}
+		c.Check(bad == "", "R19.6", key, w.InstrPos(reg.Instr), "every exit after the open closes the cache or waits for the teardown", "the command can return after the cache was opened without closing it or waiting for the teardown ("+bad+"): the lock file stays behind with the pid of a process that is gone")
+	}
+	if n == 0 {
+		c.Violate("R19.6", "expected:multi-repo-cache-user", "commands", "no command registering a repository with a MultiRepoCache found (reference: webui)")
+	}
+	// R19.7
+	ir := w.Func("util/process", "IsRunning")
+	if ir == nil {
+		c.Undecided("R19.7", "anchor:process.IsRunning", "util/process", "not found")
+		return
+	}
+	c.seeFn(funcName(ir))
+	var sig *ssa.Call
+	for _, cl := range Calls(ir) {
+		if strings.HasSuffix(cl.Name, "os.Process.Signal") {
+			sig, _ = cl.Instr.(*ssa.Call)
+		}
+	}
+	okNil, okPerm := false, false
+	if sig != nil {
+		// nil error → true
+		for _, sb := range successBlocks(sig) {
+			if r, isRet := sb.Instrs[len(sb.Instrs)-1].(*ssa.Return); isRet {
+				if k, isK := r.Results[0].(*ssa.Const); isK && k.Value != nil && k.Value.String() == "true" {
+					okNil = true
+				}
+			}
+		}
+		// or the function returns 'err == nil' itself
+		for _, r := range Returns(ir) {
+			if bo, isBo := r.Results[0].(*ssa.BinOp); isBo && bo.Op == token.EQL && isNilConst(bo.Y) {
+				for _, ev := range errValues(sig) {
+					if bo.X == ev {
+						okNil = true
+					}
+				}
+			}
+		}
+		// EPERM → true: a return true control dependent on a comparison of the errno with syscall.EPERM
+		for _, r := range Returns(ir) {
+			k, isK := r.Results[0].(*ssa.Const)
+			if !isK || k.Value == nil || k.Value.String() != "true" {
+				continue
+			}
+			for _, cc := range controlConds(r.Block(), nil) {
+				if bo, isBo := cc.If.Cond.(*ssa.BinOp); isBo && bo.Op == token.EQL && cc.Edge == 0 {
+					for _, side := range []ssa.Value{bo.X, bo.Y} {
+						if kk, isKK := constInt(side); isKK && kk == int64(syscall.EPERM) {
+							okPerm = true
+						}
+					}
+				}
+			}
+		}
+	}
+	c.Sites += 2
+	c.Check(okNil, "R19.7", "process.IsRunning:delivered-is-alive", w.FnPos(ir), "signal 0 delivered ⇒ alive", "a delivered signal 0 is not reported as a running process")
+	c.Check(okPerm, "R19.7", "process.IsRunning:eperm-is-alive", w.FnPos(ir), "EPERM ⇒ alive", "EPERM from signal 0 (the process exists but belongs to another user) is not reported as running: the lock of a live holder of another user is taken for stale and removed")
+}
+
+func allInstrs(fn *ssa.Function) []ssa.Instruction {
+	var out []ssa.Instruction
+	for _, b := range fn.Blocks {
+		out = append(out, b.Instrs...)
+	}
+	return out
 }
